@@ -192,8 +192,34 @@ Fixpoint mu_walk (snap : option (nat * list (nat * option Z))) (prev : proj) (st
       && mu_walk snap' p r
   end.
 
+(* With a pull collector (StdOut, File, ...) "the reported metrics contain no objective value" presupposes a report: the trial
+   controller waits (requeues) while the DB holds nothing for the trial, and reports MetricsUnavailable only when the DB held an
+   entry without objective value when the reconcile began.  (For the model this follows from plan_trial_main and the
+   permanence of DB entries without teardown; it is a monitored clause, not covered by C06_metrics_unavailable_justified.) *)
+Fixpoint mu_pull_walk (snap : option (nat * list (nat * option Z))) (prev : proj) (steps : list (action * proj)) : bool :=
+  match steps with
+  | [] => true
+  | (a, p) :: r =>
+      let snap' := match a with
+                   | Begin CTrial k _ _ => match pj_pending prev with (_, _, true) => snap | _ => Some (k, pj_db prev) end
+                   | _ => snap end in
+      forallb (fun t =>
+        match find_pt (pt_name t) prev with
+        | Some t0 =>
+            if pt_is t TMetricsUnavailable && negb (pt_is t0 TMetricsUnavailable) then
+              match snap' with
+              | Some (k, db) => match db_get (pt_name t) db with Some None => true | _ => false end
+              | None => false
+              end
+            else true
+        | None => true
+        end) (pj_trials p)
+      && mu_pull_walk snap' p r
+  end.
+
 Definition trial_ok (c : case) : bool :=
   all_steps trial_step (initial c) (k_steps c) && mu_walk None (initial c) (k_steps c) &&
+  (c_push (k_cfg c) || has_teardown c || mu_pull_walk None (initial c) (k_steps c)) &&
   match k_quiet c with Some _ => trial_final c (last_state c) | None => true end.
 
 (* ------------------------------------------------------------------ C07: run object lifecycle *)
@@ -372,6 +398,31 @@ Fixpoint sug_restart_walk (cf : cfg) (seen : bool) (prev : proj) (steps : list (
 Definition restart_progress (c : case) : bool :=
   match k_quiet c with Some _ => negb (has_raise c) || verdict_at_rest c | None => true end.
 
+(* the user can raise maxTrialCount of an experiment that runs, or that succeeded by reaching max trials under LongRunning /
+   FromVolume (however often it was restarted before): the update rule of the validating webhook (C15) admits the edit *)
+Definition raise_step (cf : cfg) (prev : proj) (a : action) (p : proj) : bool :=
+  match a, pj_exp prev with
+  | UserRaiseMax n, Some e =>
+      match pe_max e with
+      | Some m =>
+          let restartable :=
+            match get_cond (pe_conds e) ESucceeded with
+            | Some c => cstatus_eqb (cstat c) CTrue && Nat.eqb (creason c) RMaxTrialsReached &&
+                        match c_resume cf with LongRunning | FromVolume => true | Never => false end
+            | None => false end in
+          if (m <? n) && negb (pe_deleting e) && (negb (pe_completed e) || restartable)
+          then match pj_exp p with Some e' => match pe_max e' with Some m' => m' =? n | None => false end | None => false end
+          else true
+      | None => true
+      end
+  | _, _ => true
+  end.
+
+(* a raise of maxTrialCount that enables a restart does restart the experiment: at rest no restart is left enabled (an
+   experiment reconcile on synced caches would take it) *)
+Definition restart_taken (c : case) : bool :=
+  match k_quiet c with Some _ => negb (restart_enabled (k_cfg c) (last_state c)) | None => true end.
+
 (* under LongRunning the suggestion is never marked Succeeded (the algorithm service is not cleaned up) *)
 Definition longrunning_never_succeeded (c : case) : bool :=
   match c_resume (k_cfg c) with
@@ -380,7 +431,7 @@ Definition longrunning_never_succeeded (c : case) : bool :=
   end.
 
 Definition resume_ok (c : case) : bool :=
-  restart_progress c && longrunning_never_succeeded c &&
+  restart_progress c && restart_taken c && all_steps (raise_step (k_cfg c)) (initial c) (k_steps c) && longrunning_never_succeeded c &&
   all_steps (restart_step (k_cfg c)) (initial c) (k_steps c) &&
   sug_restart_walk (k_cfg c) false (initial c) (k_steps c) &&
   rpc_walk None (initial c) (k_steps c)
@@ -388,7 +439,7 @@ Definition resume_ok (c : case) : bool :=
 
 (* everything but the clause that the known finding F18 violates *)
 Definition resume_ok_modulo_f18 (c : case) : bool :=
-  longrunning_never_succeeded c &&
+  restart_taken c && all_steps (raise_step (k_cfg c)) (initial c) (k_steps c) && longrunning_never_succeeded c &&
   all_steps (restart_step (k_cfg c)) (initial c) (k_steps c) &&
   sug_restart_walk (k_cfg c) false (initial c) (k_steps c) &&
   rpc_walk None (initial c) (k_steps c)
@@ -396,7 +447,7 @@ Definition resume_ok_modulo_f18 (c : case) : bool :=
 
 (* everything but the clause that the known finding F14 violates *)
 Definition resume_ok_modulo_f14 (c : case) : bool :=
-  restart_progress c && longrunning_never_succeeded c &&
+  restart_progress c && restart_taken c && all_steps (raise_step (k_cfg c)) (initial c) (k_steps c) && longrunning_never_succeeded c &&
   all_steps (restart_step (k_cfg c)) (initial c) (k_steps c) &&
   sug_restart_walk (k_cfg c) false (initial c) (k_steps c) &&
   rpc_walk None (initial c) (k_steps c)
